@@ -253,6 +253,16 @@ def stores_to_name(func, name):
     return out
 
 
+def through_locals(func, e, stop=(), depth=0):
+    """sub-expressions of `e`, seen through the locals that are assigned exactly once (`n = len(data)` ... `n > limit`)"""
+    for x in ast.walk(e):
+        yield x
+        if isinstance(x, ast.Name) and depth < 3 and x.id not in stop:
+            ss = stores_to_name(func, x.id)
+            if len(ss) == 1 and isinstance(ss[0].ast, ast.Assign):
+                yield from through_locals(func, ss[0].ast.value, stop, depth + 1)
+
+
 def carrying_stores(func, name, is_source, _depth=0):
     """CFG store nodes of local `name` whose stored value is a *source* value: directly (`is_source(value expr)`), or
     a pure copy `name = w` (e.g. the result variable of an expanded helper) where `w` can reach the copy only freshly
